@@ -272,7 +272,8 @@ def run_property(prop, tier, seed, replay=None):
         discharged = 0
         pa = {'_error': bres.describe()}
     extra_assumptions = list(getattr(mod, 'ASSUMPTIONS', []))
-    write_evidence(ctx, obligations, discharged, pa, closure, len(lines), known_hits, extra_assumptions)
+    if not replay:
+        write_evidence(ctx, obligations, discharged, pa, closure, len(lines), known_hits, extra_assumptions)
 
     for name, val in sorted(ctx.stats.items())[:40]:
         pass
